@@ -24,6 +24,8 @@
 (*   "tg"   textgrids-to-torch-token-data-dir and ...-to-textgrids         *)
 (*   "er"   compute-torch-token-data-dir-error-rates                       *)
 (*   "sub"  subset-torch-spect-data-dir                                    *)
+(*   "subrun"  the same command run two or three times into the SAME       *)
+(*          destination while the source data change in between            *)
 (*   "mom", "momr"  print-torch-{ali,ref}-data-dir-length-moments          *)
 (***************************************************************************)
 EXTENDS TranscriptsOps, TLC, Json
@@ -41,6 +43,8 @@ CONSTANTS
   TgSet, TgUtts, TgShifts,
   ErPairs, ErPairsSmall, ErPairsTiny, ErCostsAll, ErBatches,
   SubLens, SubUtts,
+  SubRunData, SubRunCrits, SubRunStyles, SubRunMax,   \* corpus (lengths), criteria, link styles, max number of runs
+  SubRunFault,   \* TRUE: the deliberately wrong writer that leaves an existing destination file alone
   MomAli, MomRef, MomUtts,
   BigUtts,     \* size of the larger corpora (built from the *Tiny sets) used for the schedule sweep
   AliTiny, TrnTiny, CtmTiny, TgTiny, MomRefTiny
@@ -50,8 +54,9 @@ VARIABLES fam, cs,                                     \* family and case
           n, c, W, mode, queue, busy, done, deliv, hist,  \* WorkerPool
           fs,        \* output files written so far: set of <<dir tag, name, content>>
           acc,       \* accumulated <<sum, sum of squares, count>>
-          clobber    \* some file was written twice
-vars == <<fam, cs, work, n, c, W, mode, queue, busy, done, deliv, hist, fs, acc, clobber>>
+          clobber,   \* some file was written twice
+          dst        \* "subrun": sources, destination directory and log of the runs so far
+vars == <<fam, cs, work, n, c, W, mode, queue, busy, done, deliv, hist, fs, acc, clobber, dst>>
 
 WP == INSTANCE WorkerPool WITH Modes <- PModes, Ns <- {}
 ED == INSTANCE EditDistance WITH MaxR <- 0, MaxH <- 0, Tokens <- {}, CostSet <- {}, Modes <- {}, CheckDecl <- FALSE, Given <- <<>>, WithRange <- TRUE,
@@ -247,6 +252,46 @@ SubHas(cs0, sub, i) ==
     [] OTHER -> sub = "ref" /\ i = 1
 
 (***************************************************************************)
+(* subsets, run repeatedly into the same destination ("subrun")            *)
+(* Two source directories hold the same utterances; between two runs a     *)
+(* source may be re-generated: "inplace" (its files are overwritten: same  *)
+(* inode, new contents) or "replace" (removed and written anew: new        *)
+(* inode).  A file's contents are <<source, version>>.  The destination is *)
+(* a map  <<subdirectory, name>> -> entry:                                 *)
+(*   copy     its own contents, those of the source file when it was made  *)
+(*   symlink  names the source file: reads as whatever that file holds now *)
+(*   link     a second name of the source's inode of that time             *)
+(* A run handles its utterances in any order, one at a time: --copy writes *)
+(* over what is there; os.symlink / os.link refuse an existing name        *)
+(* (FileExistsError: the run ends, outcome "raises").  After every run     *)
+(* that did not raise, the files of the utterances it requested read the   *)
+(* same as the source files do NOW, and the destination holds nothing that *)
+(* no run requested.                                                       *)
+(***************************************************************************)
+SubRunSteps == {<<1, "none">>, <<1, "inplace">>, <<1, "replace">>, <<2, "none">>}
+SubRunFirst == {[src |-> 1, regen |-> "none", crit |-> cr] : cr \in SubRunCrits}
+SubRunLater == {[src |-> st[1], regen |-> st[2], crit |-> cr] : st \in SubRunSteps, cr \in SubRunCrits}
+SubRunHists == UNION {{<<r1>> \o rest : r1 \in SubRunFirst, rest \in [1..(m - 1) -> SubRunLater]} : m \in 2..SubRunMax}
+SubRunCases ==
+  IF "subrun" \notin Fams THEN {}
+  ELSE {[nm |-> nm, data |-> SubRunData, aux |-> SubAux[1 + Mod3(Len(nm.pre) + Len(nm.suf))], style |-> st, runs |-> h] :
+          nm \in Namings, st \in SubRunStyles, h \in SubRunHists}
+RunCase(cs0, k) == [nm |-> cs0.nm, data |-> cs0.data, aux |-> cs0.aux, crit |-> cs0.runs[k].crit]
+RunKeys(cs0, k, i) == {<<sub, Name(cs0.nm, i)>> : sub \in {s \in {"feat", "ali", "ref"} : SubHas(RunCase(cs0, k), s, i)}}
+RunAllKeys(cs0, k) == UNION {RunKeys(cs0, k, i) : i \in SubChosen(RunCase(cs0, k))}
+Dst0 == [files |-> <<>>, gen |-> <<0, 0>>, ver |-> (<<1, 0>> :> 1) @@ (<<2, 0>> :> 2), clock |-> 2,
+         run |-> 0, busy |-> FALSE, todo |-> {}, log |-> <<>>]
+CurSrc(d, s) == <<s, d.ver[<<s, d.gen[s]>>]>>
+NewEntry(d, style, s) ==
+  CASE style = "copy" -> [kind |-> "copy", val |-> CurSrc(d, s), src |-> s, ino |-> <<s, d.gen[s]>>]
+    [] style = "symlink" -> [kind |-> "symlink", val |-> <<0, 0>>, src |-> s, ino |-> <<s, d.gen[s]>>]
+    [] OTHER -> [kind |-> "link", val |-> <<0, 0>>, src |-> s, ino |-> <<s, d.gen[s]>>]
+ReadEntry(d, e) ==
+  CASE e.kind = "copy" -> e.val
+    [] e.kind = "symlink" -> CurSrc(d, e.src)
+    [] OTHER -> <<e.ino[1], d.ver[e.ino]>>
+
+(***************************************************************************)
 (* length moments                                                          *)
 (***************************************************************************)
 MomOpts == {[excl |-> e, bessel |-> b, std |-> s] : e \in {{}, {2}}, b \in BOOLEAN, s \in BOOLEAN}
@@ -305,24 +350,27 @@ Init ==
   /\ fam \in Fams
   /\ cs \in (CASE fam = "ali" -> AliCases [] fam = "trn" -> TrnCases [] fam = "ctm" -> CtmCases
                [] fam = "tg" -> TgCases [] fam = "er" -> ErCases [] fam = "sub" -> SubCases
+               [] fam = "subrun" -> SubRunCases
                [] fam = "mom" -> MomCases [] fam = "momr" -> MomRCases)
   /\ work = Work(fam, cs)
   /\ n = Len(work)
-  /\ c \in Cs /\ W \in Ws /\ mode \in PModes
+  /\ c \in (IF fam = "subrun" THEN {MinOf(Cs)} ELSE Cs) /\ W \in (IF fam = "subrun" THEN {MinOf(Ws)} ELSE Ws)
+  /\ mode \in (IF fam = "subrun" THEN {CHOOSE m \in PModes : TRUE} ELSE PModes)
+  /\ dst = Dst0
   /\ queue = [k \in 1..WP!NChunks(n, c) |-> k]
   /\ busy = [w \in 1..W |-> 0]
   /\ done = {} /\ deliv = <<>> /\ hist = <<>>
   /\ fs = {} /\ acc = Zero3 /\ clobber = FALSE
 
 ItemsOf(k) == WP!ChunkItems(k)         \* item numbers of chunk k
-Take == WP!TakeAny /\ UNCHANGED <<fam, cs, work, fs, acc, clobber>>
+Take == WP!TakeAny /\ UNCHANGED <<fam, cs, work, fs, acc, clobber, dst>>
 Finish ==       \* a worker runs the per-item function on its chunk: files appear
   \E w \in 1..W :
      /\ WP!Finish(w)
      /\ LET new == UNION {work[ItemsOf(busy[w])[j]].files : j \in 1..Len(ItemsOf(busy[w]))}
         IN /\ fs' = fs \cup new
            /\ clobber' = (clobber \/ \E x \in new : \E y \in fs : x[1] = y[1] /\ x[2] = y[2])
-     /\ UNCHANGED <<fam, cs, work, acc>>
+     /\ UNCHANGED <<fam, cs, work, acc, dst>>
 Deliver ==      \* the parent receives the chunk's return values and adds them up
   /\ (WP!DeliverOrdered \/ WP!DeliverUnordered)
   /\ LET k == deliv'[Len(deliv')]
@@ -331,8 +379,50 @@ Deliver ==      \* the parent receives the chunk's return values and adds them u
                       ELSE LET r == work[ItemsOf(k)[j]].ret
                            IN Add(j + 1, <<a[1] + r[1], a[2] + r[2], a[3] + r[3]>>)
      IN acc' = Add(1, acc)
-  /\ UNCHANGED <<fam, cs, work, fs, clobber>>
-Next == Take \/ Finish \/ Deliver
+  /\ UNCHANGED <<fam, cs, work, fs, clobber, dst>>
+
+\* "subrun": the runs, one after the other (the pool variables stay at rest)
+PoolVars == <<fam, cs, work, n, c, W, mode, queue, busy, done, deliv, hist, fs, acc, clobber>>
+SubRaised == dst.log # <<>> /\ dst.log[Len(dst.log)].outcome = "raises"
+SubLog(d, k, outcome) ==
+  [run |-> k, outcome |-> outcome, src |-> cs.runs[k].src, regen |-> cs.runs[k].regen, crit |-> cs.runs[k].crit,
+   cur |-> CurSrc(d, cs.runs[k].src),
+   chosen |-> RunAllKeys(cs, k),
+   requested |-> UNION {RunAllKeys(cs, j) : j \in 1..k},
+   dest |-> IF outcome = "ok" THEN {<<key, ReadEntry(d, d.files[key])>> : key \in DOMAIN d.files} ELSE {}]
+BeginRun ==     \* (the source named by the run is re-generated first, if the history says so)
+  /\ fam = "subrun" /\ ~dst.busy /\ ~SubRaised /\ dst.run < Len(cs.runs)
+  /\ LET k == dst.run + 1
+         s == cs.runs[k].src
+         g == dst.gen[s]
+         d1 == CASE cs.runs[k].regen = "inplace" ->
+                      [dst EXCEPT !.clock = dst.clock + 1, !.ver = [dst.ver EXCEPT ![<<s, g>>] = dst.clock + 1]]
+                 [] cs.runs[k].regen = "replace" ->
+                      [dst EXCEPT !.clock = dst.clock + 1, !.gen = [dst.gen EXCEPT ![s] = g + 1],
+                                  !.ver = (<<s, g + 1>> :> (dst.clock + 1)) @@ dst.ver]
+                 [] OTHER -> dst
+     IN dst' = [d1 EXCEPT !.run = k, !.busy = TRUE, !.todo = SubChosen(RunCase(cs, k))]
+  /\ UNCHANGED PoolVars
+DoItem ==       \* one utterance of the current run: its feat / ali / ref files
+  /\ fam = "subrun" /\ dst.busy /\ dst.todo # {}
+  /\ \E i \in dst.todo :
+       LET k == dst.run
+           keys == RunKeys(cs, k, i)
+           there == {key \in keys : key \in DOMAIN dst.files}
+           put(ks) == [key \in ks |-> NewEntry(dst, cs.style, cs.runs[k].src)]
+       IN IF SubRunFault
+          THEN dst' = [dst EXCEPT !.todo = dst.todo \ {i}, !.files = put(keys \ there) @@ dst.files]
+          ELSE IF there # {} /\ cs.style # "copy"
+          THEN dst' = [dst EXCEPT !.busy = FALSE, !.todo = {}, !.log = Append(dst.log, SubLog(dst, k, "raises"))]
+          ELSE dst' = [dst EXCEPT !.todo = dst.todo \ {i}, !.files = put(keys) @@ dst.files]
+  /\ UNCHANGED PoolVars
+EndRun ==
+  /\ fam = "subrun" /\ dst.busy /\ dst.todo = {}
+  /\ dst' = [dst EXCEPT !.busy = FALSE, !.log = Append(dst.log, SubLog(dst, dst.run, "ok"))]
+  /\ UNCHANGED PoolVars
+SubRunDone == fam = "subrun" /\ ~dst.busy /\ (SubRaised \/ dst.run = Len(cs.runs))
+
+Next == Take \/ Finish \/ Deliver \/ BeginRun \/ DoItem \/ EndRun
 Spec == Init /\ [][Next]_vars
 Terminated == WP!Terminated
 
@@ -375,6 +465,26 @@ SubOK == (fam = "sub" /\ First) =>
        \A i \in SubChosen(cs) : \A j \in (1..Len(cs.data)) \ SubChosen(cs) : cs.data[i] <= cs.data[j]
   /\ cs.crit.kind \in {"longest-n", "longest-ratio"} =>
        \A i \in SubChosen(cs) : \A j \in (1..Len(cs.data)) \ SubChosen(cs) : cs.data[i] >= cs.data[j]
+\* subrun: after every run that did not raise, whatever the order of its utterances: the requested files are
+\* there and read as the source does now; nothing is there that no run requested
+SubRunAtRest == fam = "subrun" /\ ~dst.busy /\ dst.run > 0 /\ ~SubRaised
+SubRunIdentical == SubRunAtRest =>
+  \A key \in RunAllKeys(cs, dst.run) :
+     key \in DOMAIN dst.files /\ ReadEntry(dst, dst.files[key]) = CurSrc(dst, cs.runs[dst.run].src)
+SubRunExact == SubRunAtRest =>
+  /\ DOMAIN dst.files = UNION {RunAllKeys(cs, j) : j \in 1..dst.run}
+  /\ (\A j \in 1..dst.run : RunAllKeys(cs, j) \subseteq RunAllKeys(cs, dst.run)) => DOMAIN dst.files = RunAllKeys(cs, dst.run)
+\* a run raises only under a link style and only when it requests a file an earlier run has made; --copy never does
+SubRunRaises == (fam = "subrun" /\ SubRaised) =>
+  /\ cs.style # "copy"
+  /\ RunAllKeys(cs, dst.run) \cap UNION {RunAllKeys(cs, j) : j \in 1..(dst.run - 1)} # {}
+SubRunMustRaise == (SubRunAtRest /\ cs.style # "copy") =>
+  RunAllKeys(cs, dst.run) \cap UNION {RunAllKeys(cs, j) : j \in 1..(dst.run - 1)} = {}
+\* the log of a finished history does not depend on the order in which the utterances were handled
+SubRunLogFree == SubRunDone =>
+  \A j \in 1..Len(dst.log) :
+     /\ dst.log[j].run = j /\ dst.log[j].chosen = RunAllKeys(cs, j)
+     /\ dst.log[j].outcome = "ok" => \A p \in dst.log[j].dest : p[1] \in dst.log[j].requested
 TypeOK == fam \in Fams /\ clobber \in BOOLEAN
 
 (***************************************************************************)
@@ -420,6 +530,17 @@ Export ==
                            chosen |-> SetToSeq(SubChosen(cs)),
                            files |-> SetToSeq({<<x[1], x[2]>> : x \in ExpectedFiles(fam, cs)}),
                            has |-> [i \in 1..Len(cs.data) |-> [s \in {"feat", "ali", "ref"} |-> SubHas(cs, s, i)]]])
+      [] fam = "subrun" ->
+           (SubRunDone =>
+              Emit(Common @@ [style |-> cs.style, aux |-> cs.aux,
+                              has |-> [i \in 1..Len(cs.data) |-> [s \in {"feat", "ali", "ref"} |-> SubHas(RunCase(cs, 1), s, i)]],
+                              runs |-> [j \in 1..Len(dst.log) |->
+                                          [outcome |-> dst.log[j].outcome, src |-> dst.log[j].src, regen |-> dst.log[j].regen,
+                                           crit |-> dst.log[j].crit, cur |-> dst.log[j].cur,
+                                           chosen |-> SetToSeq(dst.log[j].chosen),
+                                           requested |-> SetToSeq(dst.log[j].requested),
+                                           dest |-> SetToSeq(dst.log[j].dest)]],
+                              nruns |-> Len(cs.runs)]))
       [] fam \in {"mom", "momr"} ->
            Emit(Common @@ [kind |-> cs.kind, excl |-> SetToSeq(cs.opt.excl), bessel |-> cs.opt.bessel, std |-> cs.opt.std,
                            triple |-> MomPooled(cs)])
